@@ -661,11 +661,13 @@ class HonestFtp(FtpServer):
         FtpServer.__init__(self, net)
         self.world = world
         self.cwd = b'/'
+        world['conns'] = world.get('conns', 0) + 1
+        self.cid = world['conns']           # one server object per control connection (id() values are reused)
 
     def handle(self, conn, line):
         verb, _, arg = line.partition(b' ')
         verb = verb.upper()
-        self.world['log'].append((id(conn) % 10000, line))
+        self.world['log'].append((self.cid, line))
         if verb == b'CWD':
             self.cwd = arg if arg.startswith(b'/') else self.cwd.rstrip(b'/') + b'/' + arg
             conn.send(b'250 ok\r\n')
@@ -723,7 +725,11 @@ def sequence_once(steps, seed):
                 conn.handler.on_close = lambda c: world['data_waiting'].done() or world['data_waiting'].set_result(None)
                 await world['data_waiting']
             control, body = world.pop('transfer')
-            mode = 'ok' if world.pop('listing', False) else world['mode']      # the processor's directory probe is served plainly
+            if world.pop('listing', False):
+                # the processor's directory probe: served plainly, unless this step is about a probe that breaks
+                mode = 'data-reset' if world['mode'] == 'probe-reset' else 'ok'
+            else:
+                mode = world['mode']
             half = len(body) // 2
             if mode == 'data-reset':
                 conn.send(body[:half])
@@ -751,7 +757,7 @@ def sequence_once(steps, seed):
         world['mode'] = how
         request = Request('ftp://h/dir/' + name)
         out = io.BytesIO()
-        if how in ('hook-finish', 'hook-retry'):
+        if how in ('hook-finish', 'hook-retry', 'probe-reset'):
             from wpull.pipeline.item import URLRecord
             from wpull.pipeline.session import ItemSession
             from wpull.processor.ftp import FTPProcessor, FTPProcessorFetchParams
@@ -763,10 +769,16 @@ def sequence_once(steps, seed):
             from wpull.writer import NullWriter
             from wpull.urlfilter import DemuxURLFilter
             rule = ResultRule(waiter=LinearWaiter(wait=0, max_wait=0), statistics=Statistics())
-            rule.hook_dispatcher.connect(PluginFunctions.handle_pre_response,
-                                         lambda item_session: Actions.FINISH if how == 'hook-finish' else Actions.RETRY)
+            if how != 'probe-reset':
+                rule.hook_dispatcher.connect(PluginFunctions.handle_pre_response,
+                                             lambda item_session: Actions.FINISH if how == 'hook-finish' else Actions.RETRY)
+
+            verdict = []
 
             class _T:
+                def check_in(self, url, new_status, *a, **k):
+                    verdict.append(getattr(new_status, 'value', str(new_status)))
+
                 def __getattr__(self, n):
                     return lambda *a, **k: None
             factory = {'FileWriter': NullWriter(), 'FetchRule': FetchRule(url_filter=DemuxURLFilter([])), 'ResultRule': rule, 'URLTable': _T()}
@@ -780,7 +792,7 @@ def sequence_once(steps, seed):
 
             async def run_it():
                 await coro
-                return ('processed',)
+                return ('processed', verdict[-1] if verdict else None)
         else:
             session = client.session()
 
@@ -846,7 +858,7 @@ def sequence_once(steps, seed):
         shutil.rmtree(tmp, ignore_errors=True)
 
 
-PRIOR_KINDS = ['ok', 'data-reset', 'session-timeout', 'listener', 'hook-finish', 'hook-retry']
+PRIOR_KINDS = ['ok', 'data-reset', 'session-timeout', 'listener', 'hook-finish', 'hook-retry', 'probe-reset']
 
 
 def judge_sequence(ctx, steps, seed):
@@ -855,7 +867,11 @@ def judge_sequence(ctx, steps, seed):
     case = {'stream': 'sequence', 'steps': [list(x) for x in steps], 'seed': seed}
     # the model: a fetch left by an exception loses its control connection, a completed one leaves it pooled
     # (every way out of an unfinished fetch is an exception, the processor's hook break included)
-    rep = ctx.model.ask(['ftp fetches ' + ''.join('N' if h == 'ok' else 'R' for h, _ in steps)])[0]
+    # (a step may be two sessions: the processor's directory probe that breaks, then the fetch itself, which completes)
+    groups = ['N' if h == 'ok' else 'RN' if h == 'probe-reset' else 'R' for h, _ in steps]
+    rep_all = ctx.model.ask(['ftp fetches ' + ''.join(groups)])[0]
+    firsts = [sum(len(g) for g in groups[:k]) for k in range(len(groups))]
+    rep = ''.join(rep_all[i] for i in firsts) if len(rep_all) == sum(len(g) for g in groups) else rep_all
     real = ''.join('T' if f else 'F' for f in fresh)
     if rep != real:
         ctx.disagree('sequence', case, rep, real)
@@ -870,6 +886,11 @@ def judge_sequence(ctx, steps, seed):
     for (how, nm), r in zip(steps[:-1], res[:-1]):
         if how == 'ok' and r != ('complete', FILES[('/dir/' + nm).encode()], 226):
             ctx.fail('reply-of-another-command', 'next-session', case, 'an ordinary download in the middle of the sequence ended as %r' % (r[:1] + r[2:],))
+        if how == 'probe-reset' and r != ('processed', 'done'):
+            # the probe of the parent directory is only a hint: the file itself is there and the server answers every
+            # command of its fetch in turn, so the item ends as done
+            ctx.fail('reply-of-another-command', 'fetch-after-probe', case, 'the directory probe lost its data connection; the fetch of %s that '
+                     'follows in the same item ended as %r, expected a finished download' % (nm, r))
     return res
 
 
